@@ -104,6 +104,7 @@ func main() {
 			nodes = append(nodes, n)
 		}
 		gen := sim.NewTxGen(r.Fork(), nKeys)
+		gen.Stable = 2 // two validators never leave: the committee stays alive
 		for b := 0; b < *nBlocks; b++ {
 			leader := nodes[b%3]
 			leader.Enter()
@@ -120,6 +121,9 @@ func main() {
 			if len(txs) > 1 && r.Chance(30) {
 				txs = append(txs, txs[0]) // duplicate offered twice
 			}
+			for _, nd := range nodes { // every operator votes yes on the governance proposals of this round
+				nd.ApproveGov(txs)
+			}
 			prop, perr := leader.Propose(txs)
 			if perr != nil {
 				sim.Direct(*outDir, map[string]any{"finding": "proposer-cannot-build-block", "kind": "ProduceProposal failed", "height": h, "error": perr.Error()})
@@ -135,7 +139,7 @@ func main() {
 			view := leader.CommitView()
 			vs, verr := leader.Committee(view.RootHeight)
 			if verr != nil {
-				panic(verr)
+				break // no committee left: the chain ends here (outside the property)
 			}
 			qc, qerr := sim.MakeQC(vs, view, sim.BLSKey(leader.KeyIdx).Pub, prop, sim.AllSigners(vs))
 			if qerr != nil {
